@@ -2,7 +2,10 @@ package props
 
 import (
 	"fmt"
+	"go/types"
 	"sort"
+
+	"golang.org/x/tools/go/ssa"
 
 	"svcheck/imports"
 	"svcheck/load"
@@ -25,6 +28,7 @@ func C17(p *load.Prog, r *report.Report) {
 	r.Explanation = "E6 import-closure rule: every (crypto.Hash).New(<id>) site reachable from HashToGroup/EncodeToGroup/HashToScalar must have a registrant of <id> (a call crypto.RegisterHash(<id>,…) in an init function) inside the import closure of the package itself; direct constructors of an imported package are linked by construction."
 	r.Trusted = []string{"go/packages import graph = what the linker links", "crypto.RegisterHash/(crypto.Hash).New contract of the standard library", "go/ssa call resolution"}
 	c17One(p, r, "host")
+	c17Iface(p, r)
 	if r.Tier == "thorough" {
 		for _, cfg := range c17Matrix {
 			name := fmt.Sprint(cfg)
@@ -35,6 +39,38 @@ func C17(p *load.Prog, r *report.Report) {
 			}
 			c17One(q, r, name)
 		}
+	}
+}
+
+// c17Iface: a hash obtained from the registry may be any registered implementation; the code must use it
+// through hash.Hash only.  A type assertion / conversion to another interface on such a value makes the
+// functions depend on which provider the program registered.
+func c17Iface(p *load.Prog, r *report.Report) {
+	n := 0
+	for _, fn := range p.ModFuncs() {
+		for _, b := range fn.Blocks {
+			for _, in := range b.Instrs {
+				var x ssa.Value
+				what := ""
+				switch t := in.(type) {
+				case *ssa.TypeAssert:
+					x, what = t.X, "type assertion to "+t.AssertedType.String()
+				case *ssa.ChangeInterface:
+					// widening to an interface with more methods is impossible without an assertion; narrowing is harmless
+					continue
+				}
+				if x == nil {
+					continue
+				}
+				if n2, ok := x.Type().(*types.Named); ok && n2.Obj().Pkg() != nil && n2.Obj().Pkg().Path() == "hash" {
+					n++
+					r.Fail("C17.provider", fn.Name()+": "+what, p.Pos(in.Pos()), "a hash.Hash value is "+what+": the registry may hold any implementation (another package of the program can register its own), so this panics or misbehaves in programs whose provider lacks that type")
+				}
+			}
+		}
+	}
+	if n == 0 {
+		r.OK("C17.provider", "hash values are used through hash.Hash only", "no type assertion on a hash.Hash value in the module")
 	}
 }
 
